@@ -439,15 +439,18 @@ long vorbis_book_decodevv_add(codebook *book,float **a,long offset,int ch,
                               oggpack_buffer *b,int n){
 
   long i,j,entry;
-  int chptr=0;
+  /* scalars [offset,offset+n) of the interleaved vector: element k is
+     sample k/ch of channel k%ch, also when offset or n is not a
+     multiple of ch */
+  int chptr=offset%ch;
   if(book->used_entries>0){
-    int m=(offset+n)/ch;
-    for(i=offset/ch;i<m;){
+    long k=offset,end=offset+n;
+    for(i=offset/ch;k<end;){
       entry = decode_packed_entry_number(book,b);
       if(entry==-1)return(-1);
       {
         const float *t = book->valuelist+entry*book->dim;
-        for (j=0;i<m && j<book->dim;j++){
+        for (j=0;k<end && j<book->dim;j++,k++){
           a[chptr++][i]+=t[j];
           if(chptr==ch){
             chptr=0;
